@@ -1,5 +1,5 @@
 (* Extraction of the C20 models (ExtrOcamlBasic only; N/Z/positive/nat stay Coq datatypes). *)
 Require Extraction.
 Require Import ExtrOcamlBasic.
-From NV Require Import Runtime.DynArray Runtime.Gc Runtime.FmtSb Runtime.ListRt gen.RtParams gen.FmtSbParams gen.ListParams.
-Extraction "../build/extract/ex_c20.ml" step dyn_new dyn_new_cap invb rt_params lstep abs gstep gc_empty ginvb rt_gc_header append_cstr append_char sb_new fmtsb_params rstep rl_new rl_with_capacity rabs astep rinvb list_params.
+From NV Require Import Runtime.DynArray Runtime.Gc Runtime.FmtSb Runtime.ListRt Runtime.HashMapRt gen.RtParams gen.FmtSbParams gen.ListParams gen.HashMapParams.
+Extraction "../build/extract/ex_c20.ml" step dyn_new dyn_new_cap invb rt_params lstep abs gstep gc_empty ginvb rt_gc_header append_cstr append_char sb_new fmtsb_params rstep rl_new rl_with_capacity rabs astep rinvb list_params hstep hnew hkeys amstep hm_params home hash.
